@@ -1,2 +1,5 @@
+pub mod drive;
 pub mod engine;
 pub mod props;
+pub mod scan;
+pub mod surfgen;
